@@ -33,6 +33,9 @@ site: http://bugseng.com/products/ppl/ . */
 #include "Scalar_Products_defs.hh"
 #include "Scalar_Products_inlines.hh"
 #include "math_utilities_defs.hh"
+#ifdef BUGSENG_PPL_VERIF
+#include "verif_hooks.hh"
+#endif
 
 // TODO: Remove this when the sparse working cost has been tested enough.
 #if PPL_USE_SPARSE_MATRIX
@@ -415,6 +418,9 @@ PPL::MIP_Problem::is_in_base(const dimension_type var_index,
 
 PPL::dimension_type
 PPL::MIP_Problem::merge_split_variable(dimension_type var_index) {
+#ifdef BUGSENG_PPL_VERIF
+  PPL_VERIF_REACH(MIP_MERGE_SPLIT);
+#endif
   // Initialize the return value to a dummy index.
   dimension_type unfeasible_tableau_row = not_a_dimension();
 
@@ -1004,6 +1010,9 @@ assign(double& d,
 
 PPL::dimension_type
 PPL::MIP_Problem::steepest_edge_float_entering_index() const {
+#ifdef BUGSENG_PPL_VERIF
+  PPL_VERIF_REACH(MIP_PRICE_FLOAT);
+#endif
   const dimension_type tableau_num_rows = tableau.num_rows();
   const dimension_type tableau_num_columns = tableau.num_columns();
   PPL_ASSERT(tableau_num_rows == base.size());
@@ -1129,6 +1138,9 @@ PPL::MIP_Problem::steepest_edge_float_entering_index() const {
 
 PPL::dimension_type
 PPL::MIP_Problem::steepest_edge_exact_entering_index() const {
+#ifdef BUGSENG_PPL_VERIF
+  PPL_VERIF_REACH(MIP_PRICE_EXACT);
+#endif
   using std::swap;
   const dimension_type tableau_num_rows = tableau.num_rows();
   PPL_ASSERT(tableau_num_rows == base.size());
@@ -1328,6 +1340,9 @@ PPL::MIP_Problem::steepest_edge_exact_entering_index() const {
 // See page 47 of [PapadimitriouS98].
 PPL::dimension_type
 PPL::MIP_Problem::textbook_entering_index() const {
+#ifdef BUGSENG_PPL_VERIF
+  PPL_VERIF_REACH(MIP_PRICE_TEXTBOOK);
+#endif
   // The variable entering the base is the first one whose coefficient
   // in the cost function has the same sign the cost function itself.
   // If no such variable exists, then we met the optimality condition
@@ -1447,6 +1462,9 @@ PPL::MIP_Problem::is_unbounded_obj_function(
 void
 PPL::MIP_Problem::pivot(const dimension_type entering_var_index,
                         const dimension_type exiting_base_index) {
+#ifdef BUGSENG_PPL_VERIF
+  PPL_VERIF_REACH(MIP_PIVOT);
+#endif
   const Row& tableau_out = tableau[exiting_base_index];
   // Linearly combine the constraints.
   for (dimension_type i = tableau.num_rows(); i-- > 0; ) {
@@ -2011,6 +2029,9 @@ PPL::MIP_Problem::solve_mip(bool& have_incumbent_solution,
                             Generator& incumbent_solution_point,
                             MIP_Problem& mip,
                             const Variables_Set& i_vars) {
+#ifdef BUGSENG_PPL_VERIF
+  PPL_VERIF_REACH(MIP_SOLVE_MIP);
+#endif
   // Solve the problem as a non MIP one, it must be done internally.
   PPL::MIP_Problem_Status mip_status;
   if (mip.is_lp_satisfiable()) {
@@ -2208,6 +2229,9 @@ bool
 PPL::MIP_Problem::is_mip_satisfiable(MIP_Problem& mip,
                                      const Variables_Set& i_vars,
                                      Generator& p) {
+#ifdef BUGSENG_PPL_VERIF
+  PPL_VERIF_REACH(MIP_IS_MIP_SAT);
+#endif
 #if PPL_NOISY_SIMPLEX
   ++mip_recursion_level;
   std::cout << "MIP_Problem::is_mip_satisfiable(): "
